@@ -12,6 +12,8 @@ def handle (line : String) : String :=
   | "scan" :: f :: _ :: entries => scanLine (unhex f) entries
   | "recreateio" :: c :: rs :: ws :: _ :: entries => recreateIoLine (unhex c) rs ws entries
   | ["estimate", d] => estimateLine (unhex d)
+  | ["estimatefull", d] => estimateFullLine (unhex d)
+  | ["public", d] => publicLine (unhex d)
   | "inrange" :: rest => inRangeLine rest
   | "analyze" :: rest => analyzeLine rest
   | "analyzefull" :: rest => analyzeFullLine rest
